@@ -186,6 +186,13 @@ fn process_dir(
                 writeln!(&mut stderr(), "Error: {err}").unwrap();
             }
             Ok(entry) => {
+                // WalkDir's own depth filtering has holes: it clamps min_depth to
+                // max_depth instead of yielding nothing when min_depth > max_depth,
+                // and broken symlinks recovered from errors bypass it entirely.
+                if entry.depth() < config.min_depth || entry.depth() > config.max_depth {
+                    continue;
+                }
+
                 let mut matcher_io = matchers::MatcherIO::new(deps);
 
                 let new_dir = entry.path().parent().map(|x| x.to_path_buf());
